@@ -25,9 +25,12 @@ def ms (t : Rat) : Nat := (t / 1000).floor.toNat
 /-- index of the first sync with this start (`sami.find("sync", start=time)`) -/
 def findIdx (body : Body) (time : Nat) : Option Nat := body.findIdx? (fun s => s.start = time)
 
-/-- index (in document order) of the last sync with start < time -/
-def lastEarlier (body : Body) (time : Nat) : Option Nat :=
-  (body.zipIdx.filter (fun p => p.1.start < time)).getLast?.map (·.2)
+/-- index (in document order) of the last sync with start < time (`find_all(..)[-1]`): a scan that remembers the last hit -/
+def lastEarlierAux (time : Nat) : Body → Nat → Option Nat → Option Nat
+  | [], _, acc => acc
+  | s :: rest, i, acc => lastEarlierAux time rest (i + 1) (if s.start < time then some i else acc)
+
+def lastEarlier (body : Body) (time : Nat) : Option Nat := lastEarlierAux time body 0 none
 
 def firstLater (body : Body) (time : Nat) : Option Nat := body.findIdx? (fun s => time < s.start)
 
